@@ -2,6 +2,8 @@
 # Self-tests of the machinery (not property checks).
 #   determinism : every check, N seeds, executed in two separate processes with 1 and 16 workers;
 #                 per-run event-log hashes, tape lengths and verdicts must be identical.
+#   benign      : apply each /verif/benign/*.diff (behaviour-preserving or legal changes) to a scratch copy
+#                 of /repo and expect every listed check to stay quiet (exit 0).
 #   mutants     : apply each /verif/mutants/*.patch and /verif/seeded/*/patch.diff to a scratch copy of
 #                 /repo, build the harness against it and expect the listed check to report a VIOLATION.
 set -u
@@ -29,5 +31,7 @@ case "$mode" in
     exit $fail ;;
   mutants)
     exec "$VERIF_DIR/mutants.sh" "${@:2}" ;;
-  *) echo "usage: $0 determinism|mutants"; exit 2 ;;
+  benign)
+    exec "$VERIF_DIR/mutants.sh" benign ;;
+  *) echo "usage: $0 determinism|mutants|benign"; exit 2 ;;
 esac
